@@ -85,6 +85,8 @@ static uint32_t prefix_len;
 static bool in_child;
 static bool child_log;
 static bool child_verbose;
+static bool is_twin;
+static int twin_fd = -1;
 
 /* shared visited-state table */
 static uint64_t *visited;
@@ -138,6 +140,9 @@ bool xp_verbose(void)
 {
 	return child_verbose || child_log;
 }
+
+static void write_all(int fd, const void *buf, size_t len);
+static bool read_all(int fd, void *buf, size_t len);
 
 /* ----------------------------------------------------------------- child API */
 void xp_logf(const char *fmt, ...)
@@ -207,8 +212,27 @@ static void finish_child(int status)
 	_exit(0);
 }
 
+static void twin_raise(uint32_t code, const char *key, const char *msg) __attribute__((noreturn));
+static void twin_raise(uint32_t code, const char *key, const char *msg)
+{
+	struct bytebuf b = {0};
+	bb_printf(&b, "%s\n%s", key, msg);
+	uint32_t hdr[2] = {code, (uint32_t)b.len};
+	write_all(twin_fd, hdr, sizeof(hdr));
+	write_all(twin_fd, b.p, b.len);
+	_exit(0);
+}
+
 void xp_fail(const char *key, const char *fmt, ...)
 {
+	if (is_twin) {
+		char m[1800];
+		va_list ap;
+		va_start(ap, fmt);
+		vsnprintf(m, sizeof(m), fmt, ap);
+		va_end(ap);
+		twin_raise(1, key, m);
+	}
 	if (slot->status == RS_OK) {
 		va_list ap;
 		va_start(ap, fmt);
@@ -223,6 +247,14 @@ void xp_fail(const char *key, const char *fmt, ...)
 
 void xp_finding(const char *key, const char *fmt, ...)
 {
+	if (is_twin) {
+		char m[1800];
+		va_list ap;
+		va_start(ap, fmt);
+		vsnprintf(m, sizeof(m), fmt, ap);
+		va_end(ap);
+		twin_raise(1, key, m);
+	}
 	if (slot->status == RS_OK) {
 		va_list ap;
 		va_start(ap, fmt);
@@ -241,6 +273,9 @@ void xp_harness_error(const char *fmt, ...)
 	va_start(ap, fmt);
 	vsnprintf(buf, sizeof(buf), fmt, ap);
 	va_end(ap);
+	if (is_twin) {
+		twin_raise(2, "harness", buf);
+	}
 	if (in_child && slot != NULL) {
 		snprintf(slot->msg, sizeof(slot->msg), "%s", buf);
 		slot->status = RS_HARNESS;
@@ -259,7 +294,7 @@ void xp_end_run(void)
 
 bool xp_state(uint64_t h)
 {
-	if (!in_child) {
+	if (!in_child || is_twin) {
 		return false;
 	}
 	if (slot->ntrace < prefix_len) {
@@ -301,7 +336,7 @@ bool xp_state(uint64_t h)
 
 void xp_transition(void)
 {
-	if (in_child && slot->ntrace >= prefix_len) {
+	if (in_child && !is_twin && slot->ntrace >= prefix_len) {
 		slot->transitions++;
 	}
 }
@@ -336,6 +371,87 @@ void xp_count(const char *name, long add)
 		slot->counters[slot->ncounters].v = add;
 		slot->ncounters++;
 	}
+}
+
+/* ------------------------------------------------------------------- twins */
+static pid_t twin_pid;
+
+bool xp_is_twin(void)
+{
+	return is_twin;
+}
+
+int xp_twin_begin(void)
+{
+	int pfd[2];
+	if (pipe(pfd) < 0) {
+		xp_harness_error("pipe failed");
+	}
+	fflush(stdout);
+	/* the twin must not scribble over the shared result slot: private copy, taken before the fork */
+	struct run_slot *priv = malloc(sizeof(*priv));
+	memcpy(priv, slot, sizeof(*priv));
+	pid_t pid = fork();
+	if (pid < 0) {
+		xp_harness_error("fork (twin) failed");
+	}
+	if (pid == 0) {
+		close(pfd[0]);
+		twin_fd = pfd[1];
+		is_twin = true;
+		slot = priv;
+		child_verbose = getenv("SIMK_TWIN_VERBOSE") != NULL;
+		return 1;
+	}
+	free(priv);
+	close(pfd[1]);
+	twin_fd = pfd[0];
+	twin_pid = pid;
+	return 0;
+}
+
+void xp_twin_end(const struct bytebuf *mine, struct bytebuf *other)
+{
+	if (is_twin) {
+		uint32_t hdr[2] = {0, (uint32_t)mine->len};
+		write_all(twin_fd, hdr, sizeof(hdr));
+		write_all(twin_fd, mine->p, mine->len);
+		_exit(0);
+	}
+	uint32_t hdr[2];
+	if (!read_all(twin_fd, hdr, sizeof(hdr))) {
+		int wst = 0;
+		waitpid(twin_pid, &wst, 0);
+		/* the twin died: same sanitizer log file; report as a crash of this execution */
+		fflush(stdout);
+		if (WIFSIGNALED(wst)) {
+			kill(getpid(), WTERMSIG(wst));
+		}
+		_exit(WIFEXITED(wst) && WEXITSTATUS(wst) != 0 ? WEXITSTATUS(wst) : 98);
+	}
+	char *buf = malloc(hdr[1] + 1);
+	if (hdr[1] > 0 && !read_all(twin_fd, buf, hdr[1])) {
+		xp_harness_error("twin transcript truncated");
+	}
+	buf[hdr[1]] = 0;
+	int wst = 0;
+	waitpid(twin_pid, &wst, 0);
+	close(twin_fd);
+	if (hdr[0] == 1) {
+		/* failure raised inside the twin: "key\nmessage" */
+		char *nl = strchr(buf, '\n');
+		if (nl != NULL) {
+			*nl = 0;
+			xp_fail(buf, "(in twin execution) %s", nl + 1);
+		}
+		xp_fail("twin-failure", "%s", buf);
+	}
+	if (hdr[0] == 2) {
+		xp_harness_error("(in twin execution) %s", buf);
+	}
+	bb_reset(other);
+	bb_append(other, buf, hdr[1]);
+	free(buf);
 }
 
 /* ASan / UBSan runtime configuration (read by the runtime at start-up) */
